@@ -1,4 +1,5 @@
 import FeatherModel.Lemmas.ClassWriteFullMethod
+import FeatherModel.Lemmas.ClassWriteFullRecord
 
 /-!
 # C02 (whole writer) — the class attribute blocks of `write`
